@@ -1221,3 +1221,142 @@ func segmentNamesGroup(c *Ctx, rule string) {
 		c.Decide(okFmt, rule, key(sp, "format:%05d.wal"), sp.Pos(), 1, "names are <id padded to at least 5 digits>.wal", "segmentPath no longer formats names as %05d.wal (the reader strips `.wal` and parses a decimal id)")
 	}
 }
+
+// newestAcrossSourcesGroup: a read at version v must return the newest version <= v that exists
+// anywhere — in any memtable or any level.  Deeper places can hold newer versions than
+// shallower ones (L0->L0 compaction renumbers old data, value-log GC re-inserts old versions
+// into the active memtable, percolator writes rollback markers at old timestamps), so a
+// lookup may stop at the first hit only when that hit is an exact version match.
+func newestAcrossSourcesGroup(c *Ctx, rule string) {
+	c.Rule(rule, "LSM.Get and levelManager.Get fold the newest version over every memtable and every level: a hit replaces the running best only when its Version is strictly greater (first source wins ties, sources are visited newest first), the loops are left early only on the true edge of `best.Version == ParseTs(key)` (exact match), and the memtable indexes report the version of the entry they found (Skiplist.Search and artTree.Get store ParseTs(found key) into ValueStruct.Version)")
+	// the memtable indexes must report the found version
+	for _, spec := range [][2]string{{"utils", "Skiplist.Search"}, {"utils", "artTree.Get"}} {
+		fn := c.Fn(spec[0], spec[1])
+		if fn == nil {
+			continue
+		}
+		set := false
+		for _, st := range fieldStoresIn(fn, false, "kv.ValueStruct", "Version") {
+			if sv, ok := st.(*ssa.Store); ok {
+				if call, ok := sv.Val.(*ssa.Call); ok && Named("kv.ParseTs")(call.Common()) {
+					// the parsed key must not be the requested key (parameter)
+					if _, isParam := call.Call.Args[0].(*ssa.Parameter); !isParam {
+						set = true
+					}
+				}
+			}
+		}
+		c.Decide(set, rule, key(fn, "Version=ParseTs(found-key)"), fn.Pos(), 1, "the index reports the version of the entry it found", spec[1]+" does not report the found entry's version (ValueStruct.Version is not serialized): the caller cannot compare hits from different memtables and levels and has to trust the first one")
+	}
+	isVersionLoad := func(v ssa.Value) bool { return isFieldLoad(v, "kv.Entry", "Version") }
+	for _, spec := range [][2]string{{"lsm", "LSM.Get"}, {"lsm", "levelManager.Get"}} {
+		fn := c.Fn(spec[0], spec[1])
+		if fn == nil {
+			continue
+		}
+		// exact-match edges
+		var eq [][2]*ssa.BasicBlock
+		strictFold := false
+		for _, b := range fn.Blocks {
+			ifi := ifOf(b)
+			if ifi == nil {
+				continue
+			}
+			bo, ok := ifi.Cond.(*ssa.BinOp)
+			if !ok {
+				continue
+			}
+			isWant := func(v ssa.Value) bool {
+				call, ok := Unwrap(v).(*ssa.Call)
+				return ok && Named("kv.ParseTs")(call.Common())
+			}
+			if (isVersionLoad(bo.X) && isWant(bo.Y)) || (isVersionLoad(bo.Y) && isWant(bo.X)) {
+				switch bo.Op {
+				case token.EQL:
+					eq = append(eq, [2]*ssa.BasicBlock{b, b.Succs[0]})
+				case token.NEQ:
+					eq = append(eq, [2]*ssa.BasicBlock{b, b.Succs[1]})
+				}
+			}
+			if isVersionLoad(bo.X) && isVersionLoad(bo.Y) && (bo.Op == token.GTR || bo.Op == token.LSS) {
+				strictFold = true
+			}
+		}
+		c.Decide(strictFold, rule, key(fn, "fold:Version>best.Version"), fn.Pos(), 1, "hits are folded by strictly greater version", spec[1]+" does not compare the versions of hits from different sources: it returns the first source that has any version at or below the requested one, although a deeper source can hold a newer one")
+		// early loop exits carrying a result
+		hdrs := map[*ssa.BasicBlock]bool{}
+		for _, b := range fn.Blocks {
+			for _, p := range b.Preds {
+				if b.Dominates(p) {
+					hdrs[b] = true
+				}
+			}
+		}
+		n := 0
+		for h := range hdrs {
+			for _, ex := range LoopEarlyExits(h) {
+				// error exits are fine: the exit block returns a non-nil error
+				if ex[1] != nil && onlyErrorReturns(fn, ex[1]) {
+					continue
+				}
+				if ex[1] == nil && returnsNonNilError(fn, ex[0]) {
+					continue
+				}
+				n++
+				guarded := false
+				for _, e := range eq {
+					if EdgeDominates(e[0], e[1], ex[0]) || (e[0] == ex[0] && e[1] == ex[1]) {
+						guarded = true
+					}
+				}
+				where := fn.Pos()
+				for _, in := range ex[0].Instrs {
+					if in.Pos().IsValid() {
+						where = in.Pos()
+					}
+				}
+				c.Decide(guarded, rule, key(fn, fmt.Sprintf("early-exit[%d]<-exact-version-match", n)), where, 2, "the search stops early only on an exact version match", spec[1]+" leaves the loop over its sources with a result that is not an exact version match: a newer version in a later source is never seen (after value-log GC or an L0->L0 compaction a read returns an older version than the newest one at or below its timestamp)")
+			}
+		}
+		c.Decide(len(hdrs) >= 1, rule, key(fn, "has:source-loop"), fn.Pos(), 1, "loop over sources found", spec[1]+" has no loop over its sources")
+	}
+}
+
+// onlyErrorReturns: every return reachable from b (without re-entering loops) has a non-nil error.
+func onlyErrorReturns(fn *ssa.Function, b *ssa.BasicBlock) bool {
+	ei := ErrorResultIndex(fn)
+	if ei < 0 {
+		return false
+	}
+	seen := map[*ssa.BasicBlock]bool{}
+	ok := true
+	var walk func(x *ssa.BasicBlock)
+	walk = func(x *ssa.BasicBlock) {
+		if seen[x] || !ok {
+			return
+		}
+		seen[x] = true
+		if len(x.Instrs) > 0 {
+			if r, isR := x.Instrs[len(x.Instrs)-1].(*ssa.Return); isR {
+				if !ProvablyNonNil(RetVal(r, ei), r, 0) {
+					ok = false
+				}
+				return
+			}
+		}
+		for _, s := range x.Succs {
+			walk(s)
+		}
+	}
+	walk(b)
+	return ok
+}
+
+func returnsNonNilError(fn *ssa.Function, b *ssa.BasicBlock) bool {
+	ei := ErrorResultIndex(fn)
+	if ei < 0 || len(b.Instrs) == 0 {
+		return false
+	}
+	r, ok := b.Instrs[len(b.Instrs)-1].(*ssa.Return)
+	return ok && ProvablyNonNil(RetVal(r, ei), r, 0)
+}
